@@ -200,3 +200,36 @@ class Ctx:
         print(f"[{self.prop}] tier={self.tier} obligations={self.obligations} discharged={self.discharged} "
               f"violations={len(real)} wall={wall:.1f}s")
         return 1 if real else 0
+
+
+class FilterCtx:
+    """view of a Ctx that only lets through the named rules (used when one property re-evaluates part of another's rules)"""
+
+    def __init__(self, ctx, allowed_suffixes):
+        self._ctx = ctx
+        self._allowed = tuple(allowed_suffixes)
+
+    def _ok_rule(self, rule):
+        return any(rule.endswith("." + a) for a in self._allowed)
+
+    def rule(self, rule, desc):
+        if self._ok_rule(rule):
+            self._ctx.rule(rule, desc)
+
+    def ok(self, rule, *a, **k):
+        if self._ok_rule(rule):
+            self._ctx.ok(rule, *a, **k)
+
+    def violation(self, rule, *a, **k):
+        if self._ok_rule(rule):
+            self._ctx.violation(rule, *a, **k)
+
+    def unrecognised(self, rule, *a, **k):
+        if self._ok_rule(rule):
+            self._ctx.unrecognised(rule, *a, **k)
+
+    def floor(self, *a, **k):
+        pass
+
+    def __getattr__(self, name):
+        return getattr(self._ctx, name)
